@@ -32,7 +32,7 @@ class Inst:
         return k
 
 
-PARAM = {"US": "US %s", "SI": "S %s", "VA": "VP p%s", "BA": "const BARR* %s", "LL8": "long long %s", "V": "VP p%s", "M": "MP p%s", "S": "S %s", "LL": "long long %s", "B": "bool %s",
+PARAM = {"P2": "void* %s", "VI2": "typename avel::Vector<typename std::conditional<sizeof(S) == 4, std::int32_t, std::int64_t>::type, V::width>::primitive p%s", "US": "US %s", "SI": "S %s", "VA": "VP p%s", "BA": "const BARR* %s", "LL8": "long long %s", "V": "VP p%s", "M": "MP p%s", "S": "S %s", "LL": "long long %s", "B": "bool %s",
          "U32": "std::uint32_t %s", "CP": "const S* %s", "P": "S* %s", "VI": "IVP p%s",
          "V2": "VP2 p%s", "M2": "MP2 p%s", "I32": "std::int32_t %s", "I64": "std::int64_t %s"}
 LOCAL = {"VA": "V %s{p%s};", "V": "V %s{p%s};", "M": "M %s{p%s};", "VI": "IV %s{p%s};", "V2": "V2 %s{p%s};",
@@ -207,7 +207,7 @@ def fam_mask(vt, cfg):
     I.append(Inst("mall", [("M", "m")], "B", "avel::all(m)", lambda c: bits_and(c.mbits("m"))))
     I.append(Inst("mnone", [("M", "m")], "B", "avel::none(m)",
                   lambda c: bits_none(c.mbits("m"))))
-    for i in range(n):
+    for i in (range(n) if TIER != "parity" else (0,)):
         I.append(Inst("mextract", [("M", "m")], "B", "avel::extract<%d>(m)" % i,
                       lambda c, i=i: c.mbits("m")[i], param=i))
         I.append(Inst("minsert", [("M", "m"), ("B", "b")], "M", "avel::insert<%d>(m, b)" % i,
@@ -268,12 +268,12 @@ def fam_bitwise(vt, cfg):
     I.append(Inst("shl_v_assign", VA, "V", "a", lanewise2(lambda c, x, y: sh("shl", x, y)), pre="a <<= b;"))
     I.append(Inst("shr_v", VA, "V", "a >> b", lanewise2(lambda c, x, y: sh(rk, x, y))))
     I.append(Inst("shr_v_assign", VA, "V", "a", lanewise2(lambda c, x, y: sh(rk, x, y)), pre="a >>= b;"))
-    for S in range(0, B + 1):
+    for S in (range(0, B + 1) if TIER != "parity" else (0, 1, B)):
         I.append(Inst("bit_shift_left", [("V", "a")], "V", "avel::bit_shift_left<%d>(a)" % S,
                       lanewise1(lambda c, x, S=S: T.shl_c(x, S)), param=S))
         I.append(Inst("bit_shift_right", [("V", "a")], "V", "avel::bit_shift_right<%d>(a)" % S,
                       lanewise1(lambda c, x, S=S: (T.ashr_c if c.vt.signed else T.lshr_c)(x, S)), param=S))
-    for S in list(range(0, B + 1)) + [B + 1, B + B // 2, 2 * B - 1, 2 * B, 2 * B + 3]:
+    for S in (list(range(0, B + 1)) + [B + 1, B + B // 2, 2 * B - 1, 2 * B, 2 * B + 3] if TIER != "parity" else [0, 1, B + 1]):
         I.append(Inst("rotl_c", [("V", "a")], "V", "avel::rotl<%d>(a)" % S,
                       lanewise1(lambda c, x, S=S: T.rotl_c(x, S)), param=S))
         I.append(Inst("rotr_c", [("V", "a")], "V", "avel::rotr<%d>(a)" % S,
@@ -469,6 +469,8 @@ TIER = "quick"
 
 
 def n_values(w):
+    if TIER == "parity":
+        return [w]
     full = list(range(0, w + 3))
     if TIER == "thorough" or w <= 16:
         return full
@@ -477,6 +479,8 @@ def n_values(w):
 
 
 def lane_values(w):
+    if TIER == "parity":
+        return [0]
     if TIER == "thorough" or w <= 16:
         return list(range(w))
     return sorted({0, 1, w // 2 - 1, w // 2, w - 2, w - 1})
@@ -551,7 +555,7 @@ def fam_memory(vt, cfg):
             both(Inst("aligned_store_N", [("P", "p"), ("V", "a")], "void", "avel::aligned_store<%d>(p, a)" % n, None, param=n),
                  judge_store_value(n), judge_footprint_store(n))
     # run-time n, analysed by substituting each constant for the argument
-    for n in n_values(w) + [w + 9, 255, 256, 65536, 0x7fffffff, 0x80000000, 0xffffffff]:
+    for n in n_values(w) + ([w + 9, 255, 256, 65536, 0x7fffffff, 0x80000000, 0xffffffff] if TIER != "parity" else []):
         i = Inst("load_rt", [("CP", "p"), ("U32", "n")], "V", "avel::load<V>(p, n)", lambda c, n=n: exp_load(c, n), param=n)
         i.fname = "w_load_rt"
         i.subst = {"n": n}
@@ -1113,7 +1117,45 @@ def fam_vdenom(vt, cfg):
     return I
 
 
+# ---------------------------------------------------------------------------
+# C19 API parity: existence + definedness of every catalogue operation
+
+def judge_parity(ctx, inst, S):
+    from common import HOLDS, REFUTED, UNDECIDED
+    rule = "the wrapper compiles and every avel:: function it reaches is defined"
+    m = ctx.module
+    und = [nm for nm, a_, l in S.calls if nm.startswith("_ZN4avel") and m["functions"].get(nm, {}).get("decl")]
+    if und:
+        return REFUTED, "calls the declared but undefined %s" % und[0][:90], rule, None
+    return HOLDS, "compiles; no undefined avel callee", rule, None
+
+
+def fam_floatmisc(vt, cfg):
+    """the remaining documented float API (C12 functions, fmod / operator%): existence only"""
+    if not vt.is_float:
+        return []
+    I = []
+    A = [("V", "a")]
+    iv = "avel::vec%dx%di" % (vt.n, vt.eb)
+    for fn in ("fmax", "fmin", "fdim", "fmod"):
+        I.append(Inst(fn, VV, "V", "avel::%s(a, b)" % fn, None))
+    I.append(Inst("frem_op", VV, "V", "a % b", None))
+    I.append(Inst("frem_assign", VV, "V", "a", None, pre="a %= b;"))
+    for fn in ("frac", "logb"):
+        I.append(Inst(fn, A, "V", "avel::%s(a)" % fn, None))
+    i = Inst("ilogb", A, "V", "avel::ilogb(a)", None)
+    i.rettype = iv + "::primitive"
+    I.append(i)
+    i = Inst("frexp", [("V", "a"), ("P2", "e")], "V", "avel::frexp(a, reinterpret_cast<%s*>(e))" % iv, None)
+    I.append(i)
+    for fn in ("ldexp", "scalbn"):
+        i = Inst(fn, [("V", "a"), ("VI2", "e")], "V", "avel::%s(a, %s{pe})" % (fn, iv), None)
+        I.append(i)
+    return I
+
+
 FAMILIES = {
+    "floatmisc": fam_floatmisc,
     "vdenom": fam_vdenom,
     "div": fam_div,
     "fpclass": fam_fpclass,
